@@ -624,6 +624,15 @@ def stage_composites(ctx):
                     if not np.allclose(c0, c1, rtol=0, atol=1e-9 * max(1, np.abs(c0).max())):
                         ctx.violation("composite:rotated:Spheres:centroid", "Spheres.center differs before/after rotation",
                                       dict(kind="composite", pred="centroid", op="rotated", impl=rc, **meta))
+                # chains on objects that have already answered other requests: translate the (already rotated once)
+                # original and rotate the copy; translate the rotated result and rotate again.  Each rotation is about the
+                # composite's OWN current centroid, so the centroid ends at the old one + t and all distances are kept.
+                ang2 = composite_angles(rng)
+                for cname, chain in (("translated-rotated", obj.translated(*t).rotated(*ang2)),
+                                     ("rotated-translated-rotated", rot.translated(np.array(t)).rotated(tuple(ang2)))):
+                    cc = [[float(v) for v in s.center] for s in chain.scatterers]
+                    rigid_predicates(ctx, "chain:%s:%s" % (cname, kind), cs, cc, t,
+                                     dict(op="chain:" + cname, impl=cc, angles2=list(ang2), **meta))
                 # the original must not be modified
                 if [[float(v) for v in s.center] for s in obj.scatterers] != cs:
                     ctx.violation("composite:%s:mutates" % kind, "rotated/translated modified the original composite",
@@ -698,6 +707,30 @@ def stage_explore(ctx):
             return p[0] > 1e-3 * np.sqrt(p[0] ** 2 + p[2] ** 2)
         return np.ones(p.shape[1], bool)
 
+    # the value of a conversion must not depend on the container type of the coordinates: integer-typed arrays (pixel index
+    # grids), float32 arrays and lists of python numbers give what the same numbers give as float64
+    ipts = np.array([[3, -4, 0, 7, -2, 5, 1], [4, 3, 5, -1, -6, 0, 1], [12, 0, -3, 2, 9, -8, 1]])
+    for a in NAMES:
+        for b in NAMES:
+            if a == b:
+                continue
+            src = np.abs(ipts) if a != "cartesian" else ipts        # radii / angles as non-negative integers
+            want = np.asarray(ftf(a, b)(src.astype(float)), dtype=float)
+            for tname, arr in (("int64", src.astype(np.int64)), ("int32", src.astype(np.int32)), ("float32", src.astype(np.float32)),
+                               ("list", [list(map(int, r)) for r in src])):
+                ctx.explored += 1
+                ctx.count("explore:container:%s" % tname)
+                try:
+                    got = np.asarray(ftf(a, b)(arr if tname != "list" else [np.array(r) for r in arr]), dtype=float)
+                except Exception as ex:  # noqa
+                    ctx.violation("conv:container:%s->%s:raises" % (a, b), "conversion %s->%s raises %s for %s coordinates"
+                                  % (a, b, type(ex).__name__, tname), dict(kind="container", src=a, dst=b, dtype=tname, points=src.tolist()))
+                    continue
+                tolc = 1e-5 if tname == "float32" else 1e-12
+                if got.shape != want.shape or not np.allclose(got, want, rtol=tolc, atol=tolc * 20):
+                    ctx.violation("conv:container:%s->%s" % (a, b), "conversion %s->%s of %s coordinates differs from the conversion of the "
+                                  "same numbers as float64" % (a, b, tname),
+                                  dict(kind="container", src=a, dst=b, dtype=tname, points=src.tolist(), got=got.tolist(), want=want.tolist()))
     for a in NAMES:
         p = sample(a, N)
         p = p[:, conditioned(a, p)]
